@@ -21,7 +21,7 @@ from checks.pcommon import prog, explore_source, pd_summary, error_variants, acc
 
 WRAPPERS = ["Vec<{}>", "Option<{}>", "HashMap<String, {}>", "HashMap<{}, String>", "Box<{}>", "Arc<{}>", "&'static {}", "[{}; 2]",
             "&'static [{}]", "Foo<{}>", "std::vec::Vec<{}>"]
-LEAVES = ["X64", "Xsize", "(A, B)"]
+LEAVES = ["X64", "Xsize", "(A, B)", "(A,)"]   # (A,) is the real one-element tuple (serde: `[A]`), not the parenthesised type (A)
 POSITIONS = ["field", "tuple_struct", "newtype_variant", "struct_variant_field", "alias", "const", "serialized_as_field", "serialized_as_item",
              "serialized_as_tuple_struct", "serialized_as_variant_payload", "serialized_as_variant_field", "serialized_as_enum_item"]
 SKIPS = {"field": ["", "#[serde(skip)]", "#[typeshare(skip)]", "#[serde(default, skip)]", "#[serde(default)] #[doc = \"d\"] #[serde(skip)]"],
@@ -38,7 +38,7 @@ def chains(depth):
 
 
 def type_text(chain, leaf):
-    t = {"X64": "Qaa", "Xsize": "Qbbbb", "(A, B)": "(A, B)"}[leaf]
+    t = {"X64": "Qaa", "Xsize": "Qbbbb", "(A, B)": "(A, B)", "(A,)": "(A,)"}[leaf]
     for w in reversed(chain):
         t = WRAPPERS[w].format(t)
     return t
@@ -286,7 +286,7 @@ def run(rep, tier, only=None):
                         continue
                     a_cases.append((pos, c, leaf, skip))
     rep.bounds = {"wrapper_chains": "all chains of length <= %d over %d wrappers%s" % (depth, len(WRAPPERS), "" if tier == "quick" else " + 300 seeded chains of length 4 + unary chains of length 5"),
-                  "leaves": "u64|i64 and usize|isize (first letter symbolic), (A, B)", "positions": POSITIONS, "skip_markers": SKIPS,
+                  "leaves": "u64|i64 and usize|isize (first letter symbolic), (A, B), (A,)", "positions": POSITIONS, "skip_markers": SKIPS,
                   "enums": "1..%d variants x {unit,newtype,struct,tuple2} x {no skip, serde(skip), typeshare(skip)} x tag x content" % (2 if tier == "quick" else 3),
                   "consts": [c[0] for c in CONSTS]}
     rep.outside = ["the directory walk and configuration loading of the CLI (the error -> no-write implication is decided on the CFG of cli generate_types, check_parse_errors and the collector fold)", "constructs not listed"]
